@@ -466,6 +466,19 @@ func settle(db *leveldb.DB, st *vstor.Stor, bg bool, timeout time.Duration) bool
 	}
 }
 
+// settleSwitched is the drain of a DB that was switched to read-only with SetReadOnly: its two compaction
+// goroutines have returned (they finish the job that was running at the switch, start nothing else and leave:
+// after that no goroutine of the DB can start a flush or a compaction) and the operation log is stable.
+// stopped = false: the goroutines were still running after [grace] (the code before the repair never parks
+// them); the caller falls back to the drain of a read-write DB.
+func settleSwitched(db *leveldb.DB, st *vstor.Stor, grace, timeout time.Duration) (stopped, stable bool) {
+	stopped = leveldb.VerifWaitCompactionsStopped(db, grace)
+	if !stopped {
+		return false, settle(db, st, true, timeout)
+	}
+	return true, settle(nil, st, false, timeout)
+}
+
 // mutations returns the audited mutating operations that change stored state: create, non-empty write, sync,
 // remove, rename, setmeta. A zero-length Write (journal.Writer.Close flushing an empty block when the DB is
 // closed) changes nothing and is not counted.
